@@ -18,6 +18,7 @@ import (
 	"github.com/enbility/spine-go/api"
 	"github.com/enbility/spine-go/model"
 	"github.com/enbility/spine-go/spine"
+	"github.com/enbility/spine-go/util"
 	"pgregory.net/rapid"
 
 	"verifharness/gen"
@@ -651,6 +652,40 @@ func (m *machine) removeEntity(t *rapid.T) {
 	m.expectEntityNotify(t, e, model.NetworkManagementStateChangeTypeRemoved)
 }
 
+// removeAllInLoop: the application removes its entities the obvious way,
+// for _, e := range device.Entities() { device.RemoveEntity(e) }.
+func (m *machine) removeAllInLoop(t *rapid.T) {
+	if len(m.attachedApp()) < 2 {
+		t.Skip("fewer than two application entities")
+	}
+	m.logf("for _, e := range Entities() { RemoveEntity(e) } (all but entity [0])")
+	list := m.w.Local.Entities()
+	for i, obj := range list {
+		if obj == nil {
+			world.Fail(t, "C07/entities-accessor/nil-while-removing", "the list obtained from Entities() before the loop holds nil at position %d after %d removals%s", i, i, m.history())
+		}
+		var e *entM
+		for _, x := range m.ents {
+			if x.attached && same(x.obj, obj) {
+				e = x
+			}
+		}
+		if e == nil || e.fixed {
+			continue // entity [0], or an entity the loop sees a second time
+		}
+		m.drainAll()
+		m.w.Local.RemoveEntity(obj)
+		e.attached = false
+		m.logf("  RemoveEntity(%s)", e.name())
+		m.mutated("removeEntity-in-loop")
+		m.expectEntityNotify(t, e, model.NetworkManagementStateChangeTypeRemoved)
+	}
+	if left := m.attachedApp(); len(left) != 0 {
+		world.Fail(t, "C07/entities-accessor/loop-missed-entity", "the loop over Entities() did not come across %d of the entities (first: %s)%s", len(left), left[0].name(), m.history())
+	}
+	world.Label("op/remove-all-in-loop")
+}
+
 // pickEntity prefers attached entities; detached ones (changed while away, announced when added
 // back) are picked now and then.
 func (m *machine) pickEntity(t *rapid.T) *entM {
@@ -668,6 +703,40 @@ func (m *machine) pickEntity(t *rapid.T) *entM {
 func (m *machine) addFeature(t *rapid.T) {
 	e := m.pickEntity(t)
 	m.mutated(m.newFeature(t, e, "feat"))
+}
+
+// probe resolves a feature address that may not exist (yet): applications and inbound messages
+// do that all the time. Nothing may come of it - in particular not for later.
+func (m *machine) probe(t *rapid.T) {
+	e := m.pickEntity(t)
+	id := uint(rapid.IntRange(1, len(e.handed)+2).Draw(t, "featureNumber"))
+	// the device resolves the address through the entity that is attached under it at present
+	var want *featM
+	for _, x := range m.ents {
+		if x.attached && reflect.DeepEqual(x.addr, e.addr) {
+			for _, f := range x.feats {
+				if f.id == id {
+					want = f
+				}
+			}
+		}
+	}
+	got := m.w.Local.FeatureByAddress(world.LA(e.addr, id))
+	direct := e.obj.FeatureOfAddress(util.Ptr(model.AddressFeatureType(id)))
+	m.logf("FeatureByAddress(%s/%d) => found=%v", e.name(), id, got != nil)
+	if (want == nil) != (got == nil) || (want != nil && !same(got, want.obj)) {
+		world.Fail(t, "C07/resolve/probe", "FeatureByAddress(%s/%d) returned %v, the model says %v%s", e.name(), id, got, want != nil, m.history())
+	}
+	var wantDirect *featM
+	for _, f := range e.feats {
+		if f.id == id {
+			wantDirect = f
+		}
+	}
+	if (wantDirect == nil) != (direct == nil) {
+		world.Fail(t, "C07/resolve/probe-entity", "FeatureOfAddress(%d) on entity %s returned %v, the model says %v%s", id, e.name(), direct, wantDirect != nil, m.history())
+	}
+	world.Label("op/probe-address")
 }
 
 // addPending adds a feature that was numbered and created earlier.
@@ -983,6 +1052,8 @@ func TestLocalTree(t *testing.T) {
 			"addFeature":   m.addFeature,
 			"addFeature2":  m.addFeature,
 			"addPending":   m.addPending,
+			"probe":        m.probe,
+			"removeAll":    m.removeAllInLoop,
 			"addFunction":  m.addFunction,
 			"addFunction2": m.addFunction,
 			"describe":     m.describe,
